@@ -88,6 +88,15 @@ def step (f : Forest) : Op → Forest
   | .elementUnwrap n => (f.elementUnwrap n).1
   | .cloneNode n => (f.cloneNode n).1
 
+/-- In strict mode (consolidation never switched off): both raw neighbours of `a` are text, so
+    taking `a` out without consolidating leaves two adjacent text nodes.  `replace` and
+    `element_wrap` pass through such a state before they repair it. -/
+def textGap (f : Forest) (a : Nat) : Bool :=
+  match f.ctx? a with
+  | some c => !f.everOff && ((c.left.getLast?.map (·.value.isText)).getD false) &&
+      ((c.right.head?.map (·.value.isText)).getD false)
+  | none => false
+
 /-- A history. -/
 def run (f : Forest) (ops : List Op) : Forest := ops.foldl step f
 
